@@ -66,7 +66,19 @@ func genC17Operand(rt *rapid.T, vc *valConfig, depth int) *Val {
 		}
 		return vc.leafS(rt, "str", false, false)
 	}
-	k := rapid.IntRange(0, 14).Draw(rt, "pos")
+	k := rapid.IntRange(0, 15).Draw(rt, "pos")
+	if k == 15 {
+		if c17HookPanics {
+			k = 0 // (a panic while a panic is being reported leaves the call: C11)
+		} else {
+			// a value whose String method panics with an error: the report of
+			// the panic prints the error (verb v), through the hook
+			// (an error whose own Error method panics would be a panic during
+			// the report when no hook is there to render it: C11)
+			pl := vc.leafS(rt, pick(rt, "plk", []string{"stderr", "serr", "err", "perr", "errstringer"}), false, false)
+			return &Val{K: pick(rt, "pk", []string{"stringer!", "pstringer!"}), S: B("x"), Sub: []*Val{pl}}
+		}
+	}
 	if k == 14 {
 		return &Val{K: "berrslice", Sub: []*Val{vc.leafI(rt, "byteerr", false), vc.leafI(rt, "byteerr", false)}}
 	}
@@ -106,13 +118,18 @@ func genC17Operand(rt *rapid.T, vc *valConfig, depth int) *Val {
 	}
 }
 
+// c17HookPanics: the hook script of the case being drawn ends in a panic
+var c17HookPanics bool
+
 func genC17(rt *rapid.T) *FmtCase {
 	vc := &valConfig{maxDepth: 1}
 	c := &FmtCase{}
 	c.HasHook = rapid.IntRange(0, 9).Draw(rt, "hook") > 0
+	c17HookPanics = false
 	if c.HasHook {
 		c.Hook = genHookScript(rt, vc)
 		if rapid.IntRange(0, 5).Draw(rt, "hookpanics") == 0 {
+			c17HookPanics = true
 			// a hook that panics after its partial output (payload: not an
 			// error, which the hook itself would be asked to render)
 			c.Hook = append(c.Hook, &Op{K: "Panic", Args: []*Val{vc.leafS(rt, "str", false, false)}})
@@ -156,9 +173,14 @@ func genC17(rt *rapid.T) *FmtCase {
 			c.Args = append(c.Args, genC17Err(rt, vc)) // kept as is in both shapes (same object)
 		} else {
 			a := genC17Operand(rt, vc, 0)
-			if hasKind(a, map[string]bool{"berrslice": true}) && strings.Contains(d.Flags, "#") {
+			if hasKind(a, map[string]bool{"berrslice": true, "stringer!": true, "pstringer!": true}) && strings.Contains(d.Flags, "#") {
 				// (Go syntax names the slice's element type, which the stand-in shape changes)
 				d.Flags = strings.ReplaceAll(d.Flags, "#", "")
+			}
+			if hasKind(a, map[string]bool{"stringer!": true, "pstringer!": true}) && !strings.Contains("vsxXq", string(d.Verb)) {
+				// (under other verbs the struct is printed field by field, and
+				// the panic closure's address differs between the two shapes)
+				d.Verb = B("v")
 			}
 			c.Args = append(c.Args, a)
 		}
